@@ -65,12 +65,17 @@ TMax ==
   /\ prevmx' = <<E.n, E.m>>
   /\ UNCHANGED <<s, cs, row>>
 
+TMaxBig ==
+  /\ E.ev = "mxb"
+  /\ Step(MaxInputBigFails(E))
+  /\ UNCHANGED <<s, cs, row, prevmx>>
+
 TPanic ==
   /\ E.ev \in {"panic", "stuck"}
   /\ Step({<<cs.prop, E.ev \o " during " \o E.during>>})
   /\ UNCHANGED <<s, cs, row, prevmx>>
 
-Next == l <= N /\ (TCase \/ TWrite \/ TDirect \/ TMax \/ TPanic)
+Next == l <= N /\ (TCase \/ TWrite \/ TDirect \/ TMax \/ TMaxBig \/ TPanic)
 Spec == Init /\ [][Next]_vars
 
 Report == l = N + 1 => Verdict(N, viol, nv, [comp |-> "BodyWriter"])
